@@ -375,6 +375,17 @@ theorem c_run_eq_cpp_run_aligned (K : CppMock) (law : Lawful K) (sl : ScopeLaws 
     observeC (runC K ⟨⟨m, none, none, none⟩, []⟩ ss) = observeX (runX K ⟨⟨m, none, none, none⟩, []⟩ (ss.map toCpp)) :=
   c_run_eq_cpp_run K law ss _ (aligned_implies_runOk K law sl ss m hp h)
 
+/-- Everything that is a function of the C++ world is the same after the two runs — in particular the number of
+    failures recorded for the test and their texts (the test result is part of the world `K.M`; a second mock failure
+    in teardown goes through the same reporter guard on both sides: `cReporterFailTest` = `cppReporterFailTest` up to
+    the terminator, `cpp_getter_shapes`). -/
+theorem failures_recorded_same {α : Type} (K : CppMock) (law : Lawful K) (failuresRecorded : K.M → α)
+    (ss : List CStmt) (core : Core K) (hok : RunOk K ⟨core, []⟩ ss) :
+    failuresRecorded (runC K ⟨core, []⟩ ss).core.m = failuresRecorded (runX K ⟨core, []⟩ (ss.map toCpp)).core.m := by
+  have h := congrArg Prod.fst (c_run_eq_cpp_run K law ss core hok)
+  simp only [observeC, observeX] at h
+  rw [h]
+
 /-- the same theorem under the name the conventions ask for: it is the part of the full statement below that holds
     on the current source (the class excluded is exactly `¬ RunOk`: a return-value getter asked while the static
     actual call is not the last call of the selected scope) -/
